@@ -535,7 +535,7 @@ def PSTACK(ex, name):
 
 contract(
     "liquid2.lexer:Lexer.accept_path",
-    props=["C17", "C02", "C11"],
+    props=["C17", "C02", "C11", "C12"],
     params={"self": Shared("lexer_self", LEXER(wc=WC1, **dict(LISTS, path_stack=Opaque(PSTACK, "pstack")))), "carry": Union(TrueT, FalseT)},
     globals_={"MAX_STR_INT": Int},           # liquid2.limits.MAX_STR_INT, any value (to_int is inlined: its limit check is part of this proof)
     inline=["liquid2.limits:to_int"],
